@@ -293,6 +293,13 @@ def _fam_entropy():
     _reg("entropy.relative_entropy_msm/populations",
          lambda P, Q, pi: entropy.relative_entropy_msm(P, Q, populations=pi),
          lambda rs, k: two_T(rs, k) + ((lambda p: p / p.sum())(rs.rand(4) + 0.1),))
+    _reg("entropy.relative_entropy_msm/populations_as_weights",       # relative weights (state counts), not normalised
+         lambda P, Q, pi: entropy.relative_entropy_msm(P, Q, populations=pi),
+         lambda rs, k: two_T(rs, k) + (np.array([120., 300., 80., 50.]) + rs.randint(0, 9, size=4),))
+    _reg("entropy.relative_entropy_msm/populations_column",           # a strided column of a caller's table
+         lambda P, Q, tab: entropy.relative_entropy_msm(P, Q, populations=tab[:, 1]),
+         lambda rs, k: two_T(rs, k) + (np.column_stack([np.arange(4.), [4., 1., 1., 3.] + rs.randint(0, 3, size=4),
+                                                        np.ones(4)]) / 9,))
     _reg("entropy.relative_entropy_msm/subset",
          lambda P, Q, sub: entropy.relative_entropy_msm(P, Q, state_subset=sub),
          lambda rs, k: two_T(rs, k) + (np.array([1, 3]),))
